@@ -10,9 +10,12 @@ CONSTANTS
   MaxFail = 1
   MaxSync = 1
   Eager = FALSE
+  SendHoldsLock = TRUE
+  MaxApply = 1
+  Gated = {FALSE}
   Hist = FALSE
   EmitMode = "none"
-INVARIANTS TypeOK OrderPreservedKF BatchBound AcceptedAreSurvivors QueueIsSuffix LossCounted LossExact SentCounted DrainCompleteKF
+INVARIANTS TypeOK OrderPreservedKF BatchBound AcceptedAreSurvivors QueueIsSuffix LossCounted LossExact AllAccepted SentCounted DrainCompleteKF
 PROPERTIES DropOldest
 CHECK_DEADLOCK FALSE
 CONSTANTS
